@@ -517,3 +517,47 @@ def unit_add_field_format():
                 "assumptions": ["precondition: the name is not declared yet (add_field_format_row tests this before calling; verified there) and the Cid containers are parallel (representation invariant, preserved by this function)",
                                 "dict / list semantics: d[k] = v, list.append (A-ITER)"]}
     return ProofUnit("interface.Cid.add_field_format", "Cid.add_field_format: names / formats / index map / format map stay parallel and order preserving", ["C09", "C04", "C10"], make, None)
+
+
+def unit_cid_init():
+    def mk(with_path):
+        def setup(ex, st):
+            self = Ref("Cid"); st.heap[self.oid] = {}
+            path = fresh(STR, "cid_path")[0] if with_path else None
+            st.frames[-1].env.update({"self": self, "cid_path": path})
+            st.ghost.update({"this": self, "path": path, "maps": [], "read_args": None, "rows": None, "rows_from": None, "located": 0, "state_at_read": None})
+        def m_class_map(ex, st, fn, args, kw):
+            m = Ref("ClassMap"); st.heap[m.oid] = {"base": args[0]}; st.ghost["maps"] = st.ghost["maps"] + [(m, args[0])]; yield st, m
+        def m_auto_rows(ex, st, fn, args, kw):
+            st.ghost["rows_from"] = args[0]
+            sb = st.copy(); yield from raise_new(ex, sb, "DataFormatError")
+            r = Ref("RowIter"); st.heap[r.oid] = {}; st.ghost["rows"] = r; yield st, r
+        def empty_state(o):
+            return (o.get("_data_format", 0) is None and o.get("_field_names") == [] and o.get("_field_formats") == [] and o.get("_field_name_to_format_map") == {} and o.get("_field_name_to_index_map") == {}
+                    and o.get("_check_names") == [] and o.get("_check_name_to_check_map") == {})
+        def m_read(ex, st, recv, args, kw):
+            st.ghost["read_args"] = (recv, args[0], args[1]); st.ghost["state_at_read"] = empty_state(st.heap[recv.oid]) and len(st.ghost["maps"]) == 2
+            sb = st.copy(); yield from raise_new(ex, sb, "InterfaceError")
+            yield st, None
+        def m_locate(ex, st, recv, args, kw):
+            st.ghost["located"] = st.ghost["located"] + 1; yield st, None
+        def c_maps(ex, st):
+            g = st.ghost; o = st.heap[g["this"].oid]; ms = g["maps"]
+            ok = (len(ms) == 2 and o.get("_check_name_to_class_map") is ms[0][0] and getattr(getattr(ms[0][1], "info", None), "name", None) == "AbstractCheck" and o.get("_field_format_name_to_class_map") is ms[1][0] and getattr(getattr(ms[1][1], "info", None), "name", None) == "AbstractFieldFormat")
+            return Sym(BOOL, z3.BoolVal(bool(ok)))
+        def c_state(ex, st):
+            g = st.ghost; o = st.heap[g["this"].oid]
+            if with_path:
+                ok = g["read_args"] is not None and g["read_args"][0] is g["this"] and g["read_args"][1] is g["path"] and g["read_args"][2] is g["rows"] and g["rows_from"] is g["path"] and g["state_at_read"] is True and g["located"] == 0
+            else:
+                ok = empty_state(o) and g["read_args"] is None and g["located"] == 1
+            return Sym(BOOL, z3.BoolVal(bool(ok)))
+        c = Contract("interface.Cid.__init__", setup,
+                returns=[Clause(c_maps, "check-and-field-format-classes-are-looked-up-among-the-subclasses-of-AbstractCheck-and-AbstractFieldFormat", props=["C20", "C09"]),
+                         Clause(c_state, "a-Cid-starts-without-format-fields-or-checks-and-with-a-path-is-read-from-that-path's-rows" if with_path else "a-Cid-without-path-starts-without-format-fields-or-checks-located-at-the-caller", props=["C09", "C08", "C17"])],
+                raises={"InterfaceError": [], "DataFormatError": []} if with_path else {}, expect=["return"] + (["InterfaceError", "DataFormatError"] if with_path else []), raises_only_props=["C09", "C10"])
+        return {"contract": c, "label": "with path" if with_path else "without path",
+                "callees": {"ref:Cid._create_name_to_class_map": m_class_map, "interface.Cid._create_name_to_class_map": ModelContract(m_class_map), "rowio.auto_rows": ModelContract(m_auto_rows), "ref:Cid.read": m_read, "ref:Cid.set_location_to_caller": m_locate},
+                "assumptions": ["Cid.read / rowio.auto_rows are used through their verified contracts; _create_name_to_class_map is abstract here (bounded: C20.protocol resolves real plug-in classes)"]}
+    def make(ctx): return [mk(False), mk(True)]
+    return ProofUnit("interface.Cid.__init__", "Cid.__init__: empty definition, class maps from the two base classes, optional read from a path", ["C09", "C08", "C17", "C20", "C10"], make, None)
